@@ -98,6 +98,13 @@ template <class D> struct W2 : public VATA::MTBDDPkg::VoidApply2Functor<W2<D>, t
 	std::set<unsigned> seen;
 	void ApplyOperation(const typename D::T& a, const typename D::T& b) { seen.insert(D::enc(a) * 8 + D::enc(b)); } };
 
+// the same, as an application uses it: ONE functor object for many traversals, some of which it cuts short with stopProcessing()
+// (after the stopAt-th leaf pair; 0 = never). Every new traversal must start afresh, whatever the previous one did.
+template <class D> struct W2R : public VATA::MTBDDPkg::VoidApply2Functor<W2R<D>, typename D::T, typename D::T> {
+	std::set<unsigned> seen; unsigned long calls = 0, stopAt = 0;
+	void ApplyOperation(const typename D::T& a, const typename D::T& b) {
+		seen.insert(D::enc(a) * 8 + D::enc(b)); if (stopAt && ++calls >= stopAt) this->stopProcessing(); } };
+
 // an assignment is built from its text; every second one that ends in don't-cares is instead built from the text without them and then
 // widened in place with AddVariablesUpTo (the two ways must denote the same assignment)
 inline SymbolicVarAsgn mkAsgn(const std::string& w) {
